@@ -277,7 +277,12 @@ def run_case(case):
 
         sim.advance(bound)
         verdict("after one bound")
+        # stability: with no further disturbance the state must hold at every idle point of the following bound, not
+        # only at its end (a stale timer that makes the subscription flap would otherwise be missed between samples)
+        hook = lambda: verdict("stability, one to two bounds after the last disturbance")  # noqa: E731
+        sim.idle_hooks.append(hook)
         sim.advance(bound)
+        sim.idle_hooks.remove(hook)
         verdict("after two bounds (stability)")
         require(not sim.loop.errors, "C04.loop-error", lambda: str(sim.loop.errors[:2]))
         require(not sim.loop.task_errors(), "C04.loop-error", lambda: str(sim.loop.task_errors()[:2]))
